@@ -138,6 +138,9 @@ func (c *queueClass_[V]) Fork(
 	}
 
 	// Connect up the input queue to the output queues in a separate go-routine.
+	// NOTE: The sequence of output queues belongs to the caller once it has been
+	// returned so the go-routine works on its own iterator over them.
+	var iterator = outputs.GetIterator()
 	group.Add(1)
 	verifSpawn()
 	go func() {
@@ -147,7 +150,6 @@ func (c *queueClass_[V]) Fork(
 		defer group.Done()
 
 		// Write each value read from the input queue to each output queue.
-		var iterator = outputs.GetIterator()
 		for {
 			// Read from the input queue.
 			var value, ok = input.RemoveHead() // Will block when empty.
@@ -193,6 +195,9 @@ func (c *queueClass_[V]) Split(
 	}
 
 	// Connect up the input queue to the output queues.
+	// NOTE: The sequence of output queues belongs to the caller once it has been
+	// returned so the go-routine works on its own iterator over them.
+	var iterator = outputs.GetIterator()
 	group.Add(1)
 	verifSpawn()
 	go func() {
@@ -202,7 +207,6 @@ func (c *queueClass_[V]) Split(
 		defer group.Done()
 
 		// Take turns reading from the input queue and writing to each output queue.
-		var iterator = outputs.GetIterator()
 		for {
 			// Read from the input queue.
 			var value, ok = input.RemoveHead() // Will block when empty.
